@@ -215,7 +215,8 @@ def stateful_families():
     """Statements grouped by the piece of per-instance state they touch; a focus group takes whole families so that the
     same state is exercised at least twice on one reused component."""
     fam = {
-        "pipe": [x for x in STATEFUL if "|>" in x[1]] + [("bigquery", "FROM t |> WHERE a > 1 |> AGGREGATE COUNT(*) AS n GROUP BY b")],
+        "pipe": [x for x in STATEFUL if "|>" in x[1]] + [("bigquery", "FROM t |> WHERE a > 1 |> AGGREGATE COUNT(*) AS n GROUP BY b")]
+        + [x for x in FAILING if "|>" in x[1]],
         "anon_alias": [x for x in STATEFUL if "UNNEST" in x[1] or "VALUES (1, 2)" in x[1] or "CROSS JOIN (SELECT 2)" in x[1] or "GENERATE_SERIES(1, 3)" == x[1][-21:] or "FLATTEN" in x[1]],
         "lambda": [x for x in STATEFUL if "->" in x[1]],
         "jsonpath": [x for x in STATEFUL if "JSON_EXTRACT" in x[1]] + [("bigquery", "SELECT JSON_VALUE(j, '$.a'), JSON_QUERY(j, '$.b.c') FROM t")],
@@ -235,6 +236,19 @@ MIXED_CASE = [
     "SELECT m.*, x.a FROM mixed AS m JOIN x ON x.a = m.foo",
     "SELECT T.Col AS Alias1, t.col AS alias1 FROM Tbl AS T WHERE T.COL = 1 ORDER BY Alias1",
     "WITH Cte AS (SELECT a AS MixedCol FROM x) SELECT MixedCol, CTE.mixedcol FROM Cte",
+]
+
+# (dialect, sql, column, schema name) for lineage: operator chains whose column mappings are composed step by step
+LINEAGE_CASES = [
+    ("snowflake", "SELECT id, n FROM sales UNPIVOT(score FOR month IN (jan, feb, mar, apr)) PIVOT(SUM(score) FOR region IN ('n' AS n, 's' AS s))", "n", "none"),
+    ("snowflake", "SELECT id, s FROM sales UNPIVOT(score FOR month IN (jan, feb, mar, apr, may)) PIVOT(MAX(score) FOR region IN ('n' AS n, 's' AS s, 'e' AS e))", "s", "none"),
+    ("snowflake", "SELECT * FROM t UNPIVOT(v FOR k IN (c1, c2, c3, c4)) UNPIVOT(w FOR j IN (v, d1, d2))", "w", "none"),
+    ("bigquery", "SELECT * FROM (SELECT a, b, c FROM t) PIVOT(SUM(a) AS s, MAX(b) AS m FOR c IN ('x', 'y', 'z'))", "s_x", "none"),
+    ("duckdb", "SELECT k, v FROM (SELECT 1 AS a, 2 AS b, 3 AS c) UNPIVOT(v FOR k IN (a, b, c))", "v", "none"),
+    (None, "WITH c1 AS (SELECT a, b FROM x), c2 AS (SELECT a + b AS s, a FROM c1), c3 AS (SELECT s * a AS p FROM c2) SELECT p FROM c3", "p", "xyz"),
+    (None, "SELECT a FROM x UNION SELECT c FROM y UNION ALL SELECT a FROM z", "a", "xyz"),
+    (None, "SELECT COALESCE(x.a, y.b, y.c, x.b) AS k FROM x JOIN y ON x.b = y.b", "k", "xyz"),
+    (None, "SELECT t.a + t.b + t.c2 AS k FROM (SELECT x.a, x.b, y.c AS c2 FROM x JOIN y ON x.b = y.b) AS t", "k", "xyz"),
 ]
 
 FAILING = [
@@ -259,6 +273,9 @@ FAILING = [
     (None, "CREATE TABLE t (a INT, CONSTRAINT"),
     (None, "MERGE INTO t USING s ON t.a = s.a WHEN MATCHED THEN"),
     # nodes left with two or more required args missing: which one is reported, and in which order
+    # pipe syntax that fails only after earlier operators have already been turned into CTEs
+    ("bigquery", "FROM t |> SELECT a, b |> WHERE a > 1 |> FROBNICATE b"),
+    ("bigquery", "FROM t |> SELECT a |> EXTEND a + 1 AS b |> AGGREGATE SUM("),
     (None, "SELECT a BETWEEN"),
     (None, "SELECT a FROM t WHERE b NOT BETWEEN"),
     ("mysql", "SELECT x BETWEEN"),
